@@ -15,13 +15,31 @@
        before every allowed step.
    Initial states: C03_init_sound applied to the counter's initial value.
 
-   NOT proved here: closure of the winning region,
-   absence of blocking, and liveness of infinite behaviours; these are only
-   exercised on the real code by the explicit closed-loop search. *)
+   (e) ABSENCE OF BLOCKING, for the model composed with the GENERATED solver:
+       at every winning valuation, with the goal counter j in range, the
+       synthesized action allows a step - for every next environment value if
+       Mealy, with one choice good for all next environment values if Moore
+       (C02_never_blocks).  The proof establishes the "onion" structure of the
+       iterates the generated solver records (StreettIter1/2) and shows that
+       rho_1, rho_2 or rho_3 always offers a step (StreettNB1-4).
+
+   (d) CLOSURE: whenever the environment keeps its action, every step the
+       synthesized action allows leads to a winning valuation
+       (C02_region_closed); hence, by induction over the behaviour, every
+       state reachable from a winning state is winning
+       (C02_reachable_states_winning), where (e) then gives a next step and
+       (a), (c) constrain it.  Uses the spec-level fact that at the fixpoint
+       the attractor of every recurrence goal equals the region
+       (L4/GR1Closure.v).
+
+   NOT proved here: liveness of infinite behaviours (every infinite closed
+   loop behaviour satisfies the Streett condition); it is only exercised on
+   the real code by the explicit fair-cycle search. *)
 From Coq Require Import List Bool Arith Lia.
 From Omega Require Import L4.Arena L4.Kleene.
 From OmegaGen Require Import FixpointGen Gr1Gen.
-From OmegaGP Require Import TransducerModel StreettTProofs.
+From OmegaGP Require Import TransducerModel StreettTProofs StreettNB2 StreettNB4 StreettIter2
+  StreettClosure1 StreettClosure2.
 
 Section C02.
 Variables nc nx ny G : nat.
@@ -57,6 +75,79 @@ Proof. exact (streett_counter_range nc nx ny G E S holds goals). Qed.
 
 End C02.
 
+Import ListNotations.
+Theorem C02_never_blocks :
+  forall nc nx ny (E S : bdd) (holds goals : list bdd) (moore plus_one : bool) fuel G c x yb j,
+  NV nc nx ny <= fuel ->
+  Forall spred holds -> Forall spred goals ->      (* state predicates *)
+  0 < G -> length goals <= G ->                    (* G = 2^width of `_goal` *)
+  c < nc -> x < nx -> yb < ny -> j < length goals ->
+  let sol := Gr1Gen.solve_streett_game nc nx ny E S holds goals moore plus_one fuel in
+  fst (fst sol) (sv c x yb) = true ->               (* a winning valuation *)
+  let L := lift nc nx ny G in
+  let A := streett_action nc nx ny G (L E) (L S) (map L holds) (map L goals) moore plus_one
+             (L (fst (fst sol))) (map (map L) (snd (fst sol))) (map (map (map L)) (snd sol)) in
+  exists m', m' < G /\
+    if moore
+    then exists yb', yb' < ny /\ forall x', x' < nx -> A (ev G c x yb j x' yb' m') = true
+    else forall x', x' < nx -> exists yb', yb' < ny /\ A (ev G c x yb j x' yb' m') = true.
+Proof.
+  intros nc nx ny E S holds goals moore plus_one fuel G c x yb j
+         Hf Sh Sg HG HnG Hc Hx Hyb Hj sol Hz L A.
+  exact (streett_impl_nonblocking nc nx ny E S holds goals moore plus_one fuel Hf Sh Sg
+           G HG HnG c x yb j Hc Hx Hyb Hj Hz).
+Qed.
+
+Theorem C02_region_closed :
+  forall nc nx ny (E S : bdd) (holds goals : list bdd) (moore plus_one : bool) fuel G v,
+  NV nc nx ny <= fuel -> Forall spred holds -> Forall spred goals -> 0 < G ->
+  let sol := Gr1Gen.solve_streett_game nc nx ny E S holds goals moore plus_one fuel in
+  let L := lift nc nx ny G in
+  let A := streett_action nc nx ny G (L E) (L S) (map L holds) (map L goals) moore plus_one
+             (L (fst (fst sol))) (map (map L) (snd (fst sol))) (map (map (map L)) (snd sol)) in
+  inr nc nx (ny * G) v ->
+  A v = true ->           (* an allowed step ... *)
+  L E v = true ->         (* ... in which the environment keeps its action *)
+  fst (fst sol) (bv G (nextpt v)) = true.   (* ... reaches a winning valuation *)
+Proof.
+  intros nc nx ny E S holds goals moore plus_one fuel G v Hf Sh Sg HG sol L A.
+  exact (streett_impl_closed nc nx ny E S holds goals moore plus_one fuel Hf Sh Sg G HG v).
+Qed.
+
+Theorem C02_reachable_states_winning :
+  forall nc nx ny (E S : bdd) (holds goals : list bdd) (moore plus_one : bool) fuel G c x ye x' ye',
+  NV nc nx ny <= fuel -> Forall spred holds -> Forall spred goals -> 0 < G ->
+  c < nc -> x < nx -> ye < ny * G ->
+  reach nc nx ny E S holds goals moore plus_one fuel G c x ye x' ye' ->
+  fst (fst (Gr1Gen.solve_streett_game nc nx ny E S holds goals moore plus_one fuel))
+    (st_of G c x ye) = true ->
+  x' < nx /\ ye' < ny * G /\
+  fst (fst (Gr1Gen.solve_streett_game nc nx ny E S holds goals moore plus_one fuel))
+    (st_of G c x' ye') = true.
+Proof.
+  intros nc nx ny E S holds goals moore plus_one fuel G c x ye x' ye' Hf Sh Sg HG.
+  exact (streett_impl_reachable_winning nc nx ny E S holds goals moore plus_one fuel Hf Sh Sg
+           G HG c x ye x' ye').
+Qed.
+
+(* non-vacuity: a game with a non-trivial winning region and two goals *)
+Example C02_never_blocks_example :
+  let E : bdd := fun v => true in
+  let S : bdd := fun v => Nat.leb (vyp v) (vy v + 1) in
+  let P : bdd := fun v => Nat.eqb (vy v) 3 in
+  let R1 : bdd := fun v => Nat.eqb (vy v) 2 in
+  let R2 : bdd := fun v => Nat.eqb (vy v) 0 in
+  let sol := Gr1Gen.solve_streett_game 1 2 4 E S [P] [R1; R2] false true 70 in
+  map (fun y => fst (fst sol) (sv 0 0 y)) [0; 1; 2; 3] = [true; true; true; true]
+  /\ NV 1 2 4 <= 70 /\ Forall spred [P] /\ Forall spred [R1; R2].
+Proof.
+  vm_compute. repeat split; try (repeat constructor; fail).
+  all: repeat constructor; intros v; reflexivity.
+Qed.
+
+Print Assumptions C02_never_blocks.
+Print Assumptions C02_region_closed.
+Print Assumptions C02_reachable_states_winning.
 Print Assumptions C02_refines_component_action.
 Print Assumptions C02_obligation_at_the_step.
 Print Assumptions C02_moore_independent_of_next_env.
